@@ -6,6 +6,6 @@ var pinnedHashes = map[string]string{
 	"GOTYPES_RESOLVEIDENT": "37813323b9abdc16",
 	"GOAST_RESOLVEIDENT":   "4be53d07a97ef4bd",
 	"GOAST_IMPORTS":        "abbf21f60a4a5083",
-	"DEC_RESOLVEPATH":      "f2424f818c0bbb23",
+	"DEC_RESOLVEPATH":      "362e2839feeaba9e",
 	"DEC_STRIPVENDOR":      "d4948ac7c1f33463",
 }
